@@ -28,7 +28,7 @@ PROPERTIES: dict[str, dict] = {
     "C06": {"title": "Shapley value", "rules": [shapley.rule_c06_shapley, coalitions.rule_k3_operators, coalitions.rule_e_enum, hygiene.rule_no_module_state, hygiene.rule_dtypes],
             "explanation": _NOTE + " C06: S1 weights s!(n-s-1)! over range(n) as integer linear forms, S2 entry-point agreement, S3 coefficient index, S4 with/without pairing, S5 summand direction and n! divisor, S6 domain.",
             "rule": _SITE_RULE},
-    "C07": {"title": "More information never hurts", "rules": [bounds.rule_bounds, norms.rule_n1_gap_registry, shapley.rule_c05_exploitability, shapley.rule_c06_shapley, hygiene.rule_no_module_state, hygiene.rule_dtypes, gym.rule_c09_reset, gym.rule_c09_step, gym.rule_c09_typestate, gym.rule_episode_state_reset, game.rule_c17_compute_and_state],
+    "C07": {"title": "More information never hurts", "rules": [bounds.rule_bounds, norms.rule_n1_gap_registry, shapley.rule_c05_exploitability, shapley.rule_c06_shapley, hygiene.rule_no_module_state, hygiene.rule_dtypes, gym.rule_c09_reset, gym.rule_c09_step, gym.rule_c09_typestate, gym.rule_episode_state_reset, game.rule_c17_compute_and_state, game.rule_c17_columns],
             "explanation": _NOTE + " C07: B13 knowledge polarity of every candidate set in all registered computers; N1 gap-function registry (names, partials, ord) and lp_norm shape; N2 gap polarity of exploitability (upper bounds enter through coalitions with the player, lower bounds without, factorial weights) via X1/X2/S1-S6.",
             "rule": _SITE_RULE},
     "C08": {"title": "Bounds depend only on current knowledge", "rules": [bounds.rule_bounds, gym.rule_h3_undo, gym.rule_c09_typestate, game.rule_c17_copy_neg_init, game.rule_c17_columns, game.rule_c17_compute_and_state, solvers.rule_c13_pairing_readonly, hygiene.rule_no_module_state, hygiene.rule_dtypes, gym.rule_episode_state_reset],
@@ -43,7 +43,7 @@ PROPERTIES: dict[str, dict] = {
     "C11": {"title": "Exhaustive search", "rules": [evaluation.rule_p1_pool_api, gameplay.rule_c11_worker, gameplay.rule_p4_paired, gameplay.rule_c11_best_states, gameplay.rule_p6_sampled_search, gameplay.rule_l1_lazy_reuse, wiring.rule_known_coalitions, hygiene.rule_no_module_state, hygiene.rule_dtypes],
             "explanation": _NOTE + " C11: P1 order-preserving pool API, P2 worker purity + T1 recompute-before-gap, P3 enumeration shape, P4 paired get_values/set_known_values arguments, P5 best-states selection, P9 meta-game, L1 single-use iterator reuse (path-sensitive, package-wide).",
             "rule": _SITE_RULE},
-    "C12": {"title": "evaluate() records true trajectories; independent of parallelism", "rules": [evaluation.rule_c12_recording, evaluation.rule_p1_pool_api, evaluation.rule_c12_rng, wiring.rule_seed_integrity, wiring.rule_solve_wiring, wiring.rule_env_factory, gym.rule_c09_step, hygiene.rule_no_module_state, hygiene.rule_dtypes, gym.rule_episode_state_reset, gym.rule_c09_reset],
+    "C12": {"title": "evaluate() records true trajectories; independent of parallelism", "rules": [evaluation.rule_c12_recording, evaluation.rule_p1_pool_api, evaluation.rule_c12_rng, wiring.rule_seed_integrity, wiring.rule_solve_wiring, wiring.rule_env_factory, gym.rule_c09_step, hygiene.rule_no_module_state, hygiene.rule_dtypes, gym.rule_episode_state_reset, gym.rule_c09_reset, generators.rule_nrng],
             "explanation": _NOTE + " C12: Q1 recording order/positions/keys in eval_one, Q2 task tuples and stacking in evaluate, P1 order-preserving pool API, Q3 RNG-ownership analysis across the task boundary (shared and process-global RNG state).",
             "rule": _SITE_RULE},
     "C13": {"title": "Built-in solvers", "rules": [solvers.rule_c13_pairing_readonly, solvers.rule_c13_validity, solvers.rule_c13_choice, solvers.rule_c13_expected_greedy, solvers.rule_c13_registry, gym.rule_h3_undo, gym.rule_c09_typestate, gameplay.rule_c11_worker, hygiene.rule_no_module_state, hygiene.rule_dtypes, gym.rule_episode_state_reset],
@@ -83,7 +83,7 @@ PROPERTIES: dict[str, dict] = {
 
 # package-wide API-misuse rules, reported under every property whose anchor files contain the offending function
 for _pid, _p in PROPERTIES.items():
-    for _r in (hygiene.rule_view_escape, hygiene.rule_observers_pure, hygiene.rule_reshape_order, hygiene.rule_truthiness_defaults):
+    for _r in (hygiene.rule_view_escape, hygiene.rule_observers_pure, hygiene.rule_reshape_order, hygiene.rule_truthiness_defaults, hygiene.rule_own_column_broadcast, hygiene.rule_observer_alias_mutation, hygiene.rule_getter_result_mutated):
         if _r is hygiene.rule_view_escape and game.rule_c17_writers in _p["rules"]:
             continue          # C17 runs G6 unscoped
         if _r not in _p["rules"]:
